@@ -20,13 +20,13 @@ Clauses and theorems
 * used ≤ input_frames, gen ≤ output_frames `process_contract`, `callback_read_contract`, `simple_contract`
   (all three for any engine, any callback script, any state; `pull_loop_bound` is the loop lemma)
 * totals = owed, then 0                    `totals_owed_then_zero` (engine laws as hypotheses), `drain_call_reports_engine_answer`
-* src_reset = fresh                        `reset_is_fresh` (ids without RESET_ON_CLEAR: 0, 1, 2);
-                                           **violated** for ids 3, 4 (5): `reset_not_fresh_witness`; `reset_of_new_is_noop`
-                                           (finding F31, replayed on the real code by the check); `reset_is_fresh_partial`
-* NULL converter / data ⇒ error code       `null_arguments_give_error`; **violated** by `src_error(NULL)`:
-                                           `src_error_null_crashes` (finding F32)
+* src_reset = fresh                        `reset_is_fresh` (every converter id, any history), `reset_of_new_is_noop`;
+                                           `reset_on_clear_not_fresh_historical`: what ids 3, 4, 5 did before /repo's repair
+                                           88f0e06 (finding F31, fixed) — still what `RESET_ON_CLEAR` objects of `soxr.h` do
+* NULL converter / data ⇒ error code       `null_arguments_give_error` (every entry point incl. `src_error`, since a55ec94;
+                                           findings F32, F33 fixed)
 * per-call ratio change, as written        `set_error_never_records`, `refused_ratio_change_is_noop`, `same_ratio_accepted`
-* src_simple writes garbage on failure     `simple_failure_writes_garbage` (finding F33)
+* src_simple on failure                    `simple_failure_reports_zero`
 * helpers                                  `float_to_short_is_reference`, `float_to_int_is_reference`, `helpers_nearest`,
                                            `helpers_saturate`, `helpers_nonfinite`, `short_float_short_exact`,
                                            `int_float_int_exact`, `short_to_float_exact`
@@ -130,43 +130,52 @@ theorem drain_call_reports_engine_answer (o : Obj) (len g : Nat) (evs : List Ev)
 
 /-! ## `src_reset` -/
 
-/-- **`src_reset` = fresh** for the converter ids without `RESET_ON_CLEAR` (0, 1, 2 on the pinned tree, see
-    `generated_constants`): any history, any stored error, running or not — the engine instances are closed, the
-    object is the one `src_new` returns, the return code is 0. -/
-theorem reset_is_fresh (id chans : Nat) (fn : Bool) (o : Obj) (hcfg : o.cfg = cfgOf id) (hr : (cfgOf id).reset = false)
+/-- **`src_reset` = fresh, every converter id** (no id carries `RESET_ON_CLEAR` since /repo's repair 88f0e06, see
+    `generated_constants`): any history, any stored error, running or not — the engine instances are closed, the object
+    is the one `src_new` returns, the return code is 0. -/
+theorem reset_is_fresh (id chans : Nat) (fn : Bool) (hid : id < 6) (o : Obj) (hcfg : o.cfg = cfgOf id)
     (hch : o.chans = chans) (hfn : o.hasFn = fn) (hmax : o.maxIlen = 2 ^ 64 - 1) (hdead : o.dead = false) (c : Ctx) :
-    ∃ c', srcReset (some o) c = .ok (some (fresh id chans fn), 0) c' ∧ c'.toks = c.toks :=
-  Soxr.Lsr.reset_is_fresh id chans fn o hcfg hr hch hfn hmax hdead c
+    ∃ c', srcReset (some o) c = .ok (some (fresh id chans fn), 0) c' ∧ c'.toks = c.toks := by
+  have hr : ∀ i < 6, (cfgOf i).reset = false := by decide
+  exact reset_is_fresh_of_flag id chans fn o hcfg (hr id hid) hch hfn hmax hdead c
 
-example : (cfgOf 1).reset = false ∧
-    ({ fresh 1 2 false with ioRatio := 0x3fe0000000000000, inited := true, flushing := true, error := some .nullOut } : Obj).dead = false := by
+example : ({ fresh 4 2 false with ioRatio := 0x3fe0000000000000, inited := true, flushing := true, error := some .nullOut } : Obj).dead = false ∧
+    ({ fresh 4 2 false with ioRatio := 0x3fe0000000000000, inited := true } : Obj).cfg = cfgOf 4 := by
   decide
 
-/-- **the pinned code violates the clause for ids 3, 4 (and 5)** (finding F31).  Converter 4 after a run at ratio 2.0:
-    `src_reset` closes the engine and creates it again **at the old `io_ratio` 0.5**; the next `src_process` at ratio 0.5
-    (`io_ratio` 2.0) is refused silently — return code 0, the engine still at 0.5, 100 frames in give 200 out — whereas a
-    new converter creates its engine at 2.0 (and hands over 50). -/
-theorem reset_not_fresh_witness :
+/-- converter 4 after a run at ratio 2.0: `src_reset` closes the engine; the next `src_process` at ratio 0.5 creates it
+    at `io_ratio` 2.0 and 100 frames in give 50 out — as on a new converter. -/
+example :
     let used : Obj := { fresh 4 1 false with ioRatio := 0x3fe0000000000000, inited := true, flushing := true }
-    let afterReset : Obj := { fresh 4 1 false with ioRatio := 0x3fe0000000000000, inited := true }
     let d : Data := ⟨0x3fe0000000000000, 100#64, 300#64, true, false, false⟩
-    srcReset (some used) ⟨[], [.c true]⟩ = .ok (some afterReset, 0) ⟨[.create 0x3fe0000000000000 true, .close], []⟩ ∧
-    afterReset ≠ fresh 4 1 false ∧
-    srcProcess 3 (some afterReset) (some d) ⟨[], [.g 200]⟩ =
-      .ok (some { afterReset with flushing := true }, ⟨0, some 100, some 200⟩)
-        ⟨[.output 200, .process 300, .flush, .input 100], []⟩ ∧
+    srcReset (some used) ⟨[], []⟩ = .ok (some (fresh 4 1 false), 0) ⟨[.close], []⟩ ∧
     srcProcess 3 (some (fresh 4 1 false)) (some d) ⟨[], [.c true, .g 50]⟩ =
       .ok (some { fresh 4 1 false with ioRatio := 0x4000000000000000, inited := true, flushing := true },
            ⟨0, some 100, some 50⟩)
         ⟨[.output 50, .process 300, .flush, .input 100, .create 0x4000000000000000 true], []⟩ := by decide +kernel
 
-/-- on a converter that has not been used yet `src_reset` changes nothing and returns 0, whatever the id (since the
-    repair of `soxr_clear` in /repo, commit 76fe472; before it ids 3, 4, 5 returned `-1`). -/
+/-- HISTORICAL witness (finding F31, fixed by 88f0e06): before the repair `soxr_quality_spec` gave converter ids 3, 4, 5
+    `RESET_ON_CLEAR` (`cfg.reset = true`).  On such an object — which is still what `soxr_clear` does for the ordinary
+    recipes of `soxr.h` — `src_reset` after a run at ratio 2.0 closes the engine and creates it again **at the old
+    `io_ratio` 0.5**; the next `src_process` at ratio 0.5 (`io_ratio` 2.0) is refused silently: return code 0, engine still
+    at 0.5, 100 frames in give 200 out. -/
+theorem reset_on_clear_not_fresh_historical :
+    let new4 : Obj := { fresh 4 1 false with cfg := ⟨true, false⟩ }
+    let used : Obj := { new4 with ioRatio := 0x3fe0000000000000, inited := true, flushing := true }
+    let afterReset : Obj := { new4 with ioRatio := 0x3fe0000000000000, inited := true }
+    let d : Data := ⟨0x3fe0000000000000, 100#64, 300#64, true, false, false⟩
+    srcReset (some used) ⟨[], [.c true]⟩ = .ok (some afterReset, 0) ⟨[.create 0x3fe0000000000000 true, .close], []⟩ ∧
+    afterReset ≠ new4 ∧
+    srcProcess 3 (some afterReset) (some d) ⟨[], [.g 200]⟩ =
+      .ok (some { afterReset with flushing := true }, ⟨0, some 100, some 200⟩)
+        ⟨[.output 200, .process 300, .flush, .input 100], []⟩ := by decide +kernel
+
+/-- on a converter that has not been used yet `src_reset` changes nothing and returns 0, whatever the id. -/
 theorem reset_of_new_is_noop :
     srcReset (some (fresh 4 1 false)) ⟨[], []⟩ = .ok (some (fresh 4 1 false), 0) ⟨[], []⟩ ∧
     srcReset (some (fresh 1 1 false)) ⟨[], []⟩ = .ok (some (fresh 1 1 false), 0) ⟨[], []⟩ := by decide +kernel
 
-/-- what does hold with `RESET_ON_CLEAR` on a used converter: `src_reset` is "close everything, forget error /
+/-- `soxr_clear` with `RESET_ON_CLEAR` (not a libsamplerate converter any more) on a used object is "close everything, forget error /
     flushing, then `soxr_set_io_ratio(p, old io_ratio, 0)` on the cleared object that keeps the old ratio" — a new
     converter that has already been given the old ratio. -/
 theorem reset_is_fresh_partial (o : Obj) (hr : o.cfg.reset = true) (hc : o.chans ≠ 0) (hz : isZero o.ioRatio = false)
@@ -175,26 +184,25 @@ theorem reset_is_fresh_partial (o : Obj) (hr : o.cfg.reset = true) (hc : o.chans
       setIoRatio { o with error := none, inited := false, flushing := false } o.ioRatio 0) c :=
   reset_with_flag o hr hc hz c
 
-example : ({ fresh 4 1 false with ioRatio := 0x3fe0000000000000 } : Obj).cfg.reset = true ∧
+example : ({ fresh 4 1 false with cfg := ⟨true, false⟩, ioRatio := 0x3fe0000000000000 } : Obj).cfg.reset = true ∧
     isZero 0x3fe0000000000000 = false := by decide +kernel
 
 
 /-! ## NULL arguments -/
 
 /-- **A NULL converter or data block yields `-1`, not a crash**, and nothing is touched: `src_process` (either NULL),
-    `src_callback_read`, `src_set_ratio`, `src_reset`, `src_simple` (NULL data); `src_delete(NULL)` is a no-op. -/
+    `src_callback_read`, `src_set_ratio`, `src_reset`, `src_error`, `src_simple` (NULL data); `src_delete(NULL)` is a
+    no-op. -/
 theorem null_arguments_give_error (fuel : Nat) (p : Option Obj) (io : Option Data) (r : D) (olen : BitVec 64) (b : Bool)
     (id : Nat) (ch : Int) (c : Ctx) :
     (p = none ∨ io = none → srcProcess fuel p io c = .ok (p, ⟨-1, none, none⟩) c) ∧
     srcCallbackRead fuel none r olen b c = .ok (none, -1) c ∧
     srcSetRatio none r c = .ok (none, -1) c ∧
     srcReset none c = .ok (none, -1) c ∧
+    srcError none c = .ok (-1) c ∧
     srcSimple fuel none id ch c = .ok .refused c ∧
     srcDelete none c = .ok () c :=
-  ⟨fun h => srcProcess_null fuel p io h c, rfl, rfl, rfl, rfl, rfl⟩
-
-/-- **violated by `src_error`** (finding F32): `soxr_error(p)` reads `p->error` without testing `p`. -/
-theorem src_error_null_crashes (c : Ctx) : srcError none c = .crash c := rfl
+  ⟨fun h => srcProcess_null fuel p io h c, rfl, rfl, rfl, rfl, rfl, rfl⟩
 
 /-! ## per-call ratio changes, as written -/
 
@@ -221,11 +229,12 @@ example : closeTo 0x3fe0000000000000 0x3fe0000000000001 = true := by decide +ker
 
 /-! ## `src_simple` on failure -/
 
-/-- finding F33: with `src_ratio = 0` (or negative, or NaN) `soxr_create` fails inside `soxr_oneshot` and `src_simple`
-    copies its two uninitialised locals into the counts (`garbage`); with NULL data / bad sizes nothing is written. -/
-theorem simple_failure_writes_garbage :
-    srcSimple 3 (some ⟨0, 100#64, 400#64, false, false, false⟩) 2 1 ⟨[], []⟩ = .ok .garbage ⟨[], []⟩ ∧
-    srcSimple 3 (some ⟨0xBFF0000000000000, 100#64, 400#64, false, false, false⟩) 2 1 ⟨[], []⟩ = .ok .garbage ⟨[], []⟩ ∧
+/-- with `src_ratio = 0` (or negative, or NaN) `soxr_create` fails inside `soxr_oneshot`: `-1` and both counts 0 (since
+    a55ec94; before it two uninitialised locals were copied out, finding F33); with NULL data / bad sizes nothing is
+    written. -/
+theorem simple_failure_reports_zero :
+    srcSimple 3 (some ⟨0, 100#64, 400#64, false, false, false⟩) 2 1 ⟨[], []⟩ = .ok (.done (-1) 0 0) ⟨[], []⟩ ∧
+    srcSimple 3 (some ⟨0xBFF0000000000000, 100#64, 400#64, false, false, false⟩) 2 1 ⟨[], []⟩ = .ok (.done (-1) 0 0) ⟨[], []⟩ ∧
     srcSimple 3 (some ⟨0x3ff0000000000000, 100#64, 400#64, false, false, false⟩) 2 0 ⟨[], []⟩ = .ok .refused ⟨[], []⟩ := by
   decide +kernel
 
@@ -345,12 +354,11 @@ example : f32.decode (lsrToFloat 15 (-32768)) = .fin (-(unit : Int)) := by decid
 /-! ## constants generated from /repo on every run -/
 
 /-- what `harness/lsr/gen.c` read off the real `src_new` objects: no LSR converter id has an engine with a
-    `set_io_ratio` entry; `RESET_ON_CLEAR` is set for ids 3, 4, 5 and not for 0, 1, 2; `max_ilen` after
+    `set_io_ratio` entry and none carries `RESET_ON_CLEAR`; `max_ilen` after
     `src_callback_new`; the `1e-15` literal; word sizes; `src_strerror` distinguishes 0 / 1 / other. -/
 theorem generated_constants :
     (∀ id < 6, (cfgOf id).vr = false) ∧
-    (cfgOf 0).reset = false ∧ (cfgOf 1).reset = false ∧ (cfgOf 2).reset = false ∧
-    (cfgOf 3).reset = true ∧ (cfgOf 4).reset = true ∧ (cfgOf 5).reset = true ∧
+    (∀ id < 6, (cfgOf id).reset = false) ∧
     Gen.maxIlen = 2 ^ 64 - 1 ∧ Gen.tinyBits = tiny ∧ Gen.sizeofLong = 8 ∧ Gen.sizeofSizeT = 8 ∧
     Gen.strerrorDistinct = true := by decide
 
